@@ -30,7 +30,7 @@ Inductive ekind :=
 | InvalidBitIndex | NonBooleanWidth | NoBitWidth | MisorderedBitIndexes
 | InvalidConstant | WireTooWide | NoMuxDefaultOption | MultipleMuxDefaultOption
 | UnreachableOptions | DivisionByZero | EmptyFile | UnparseableLine
-| UnterminatedComment | LexicalError | AssignedConstant
+| UnterminatedComment | LexicalError | ConstantAssigned
 | Panicked      (* the Rust code would panic here (unwrap, assert, slice, ...) *)
 | OutOfFuel.    (* a fuelled model loop ran out of fuel: excluded by the theorems *)
 
@@ -73,7 +73,7 @@ Definition ekind_name (k : ekind) : string :=
   | UnparseableLine => "UnparseableLine"
   | UnterminatedComment => "UnterminatedComment"
   | LexicalError => "LexicalError"
-  | AssignedConstant => "AssignedConstant"
+  | ConstantAssigned => "ConstantAssigned"
   | Panicked => "Panicked"
   | OutOfFuel => "OutOfFuel"
   end%string.
